@@ -46,6 +46,10 @@ type_map = {
     "int64": 0,
 }
 
+# names a field type or alias target is looked up under: "string" is a helper of the generated
+# module, not a type a definition file can name (a struct may be called string)
+native_types = [name for name in type_map if name != "string"]
+
 TAB = "  "  # two spaces is preferred indent in js
 
 
@@ -80,7 +84,7 @@ class JSDefCompiler:
         return f'RTMA.HASH.{mdf.name} = "{mdf.hash[:8]}";\n'
 
     def generate_type_alias(self, td: TypeAlias) -> str:
-        if td.type_name in type_map.keys():
+        if td.type_name in native_types:
             clean_name = td.type_name.replace(" ", "_")
             return f"RTMA.aliases.{td.name} = type_map.{clean_name};\n"
 
@@ -117,7 +121,7 @@ class JSDefCompiler:
 
         for n, field in enumerate(struct.fields, start=1):
             s += tabs
-            if field.type_name in type_map.keys():
+            if field.type_name in native_types:
                 clean_name = field.type_name.replace(" ", "_")
                 ftype = f"type_map.{clean_name}"
             elif field.type_name in self.parser.message_defs.keys():
